@@ -427,20 +427,24 @@ def c08(res, rng, tier):
 import struct as _st
 
 def unhashable_key_programs():
-    """(description, program bytes that push ONE key containing an unhashable object)"""
+    """(description, program bytes that push ONE key containing an unhashable object): every
+    composition of depth <= 3 of the wrappers Tuple / Call arguments / Ref id around each base"""
+    import itertools
     base = [("list", b"]"), ("list1", b"]K\x01a"), ("dict", b"}"), ("dict1", b"}K\x01K\x02s"),
             ("bytearray", b"\x96" + _st.pack("<Q", 2) + b"ab")]
+    wrap = {"tuple": lambda x: x + b"\x85", "tuple2": lambda x: b"K\x01" + x + b"\x86",
+            "call": lambda x: b"cm\nC\n" + x + b"\x85R", "ref": lambda x: x + b"Q"}
     out = []
     for name, prog in base:
         out.append((name + "@0", prog))
-        out.append((name + "@1 tuple", prog + b"\x85"))
-        out.append((name + "@2 tuple", b"K\x01" + prog + b"\x85\x86"))
-        out.append((name + "@3 tuple", b"(K\x01(K\x02" + prog + b"\x85tt"))
-        out.append((name + "@1 call", b"cm\nC\n" + prog + b"\x85R"))
-        out.append((name + "@2 call", b"cm\nC\nK\x01" + prog + b"\x85\x86R"))
-        out.append((name + "@1 ref", prog + b"Q"))
-        out.append((name + "@2 ref", prog + b"\x85Q"))
-        out.append((name + "@3 ref-call", b"cm\nC\n" + prog + b"\x85Q\x85R"))
+        for depth in (1, 2, 3):
+            for ws in itertools.product(wrap, repeat=depth):
+                if depth == 3 and name not in ("list", "bytearray"):
+                    continue
+                x = prog
+                for w in ws:
+                    x = wrap[w](x)
+                out.append((name + "@" + ">".join(ws), x))
     return out
 
 @check("C17")
